@@ -34,14 +34,15 @@ PAIRS_DIFF = [('v6-pmsa-sec', 'v7-vmsa-sec'), ('v4-pmsa', 'v7-pmsa-r'), ('v7-pms
 def plan(tier, seed):
     q = tier == 'quick'
     specs = []
-    for i in range(6 if q else 24):
-        specs.append(dict(kind='replay', seed=seed, shard=i, n=150 if q else 6000))
+    # thorough: 64 shards of about ten minutes each (every scenario forks children; 16 cores -> about 45 minutes)
+    for i in range(6 if q else 16):
+        specs.append(dict(kind='replay', seed=seed, shard=i, n=150 if q else 1000))
     for i in range(4 if q else 16):
-        specs.append(dict(kind='history', seed=seed, shard=i, n=150 if q else 6000))
-    for i in range(6 if q else 24):
-        specs.append(dict(kind='isolation', seed=seed, shard=i, n=12 if q else 150, rand=120 if q else 3000))
-    for i in range(6 if q else 24):
-        specs.append(dict(kind='aged', seed=seed, shard=i, n=250 if q else 12000, steps=25))
+        specs.append(dict(kind='history', seed=seed, shard=i, n=150 if q else 1000))
+    for i in range(6 if q else 16):
+        specs.append(dict(kind='isolation', seed=seed, shard=i, n=12 if q else 60, rand=120 if q else 800))
+    for i in range(6 if q else 16):
+        specs.append(dict(kind='aged', seed=seed, shard=i, n=250 if q else 1600, steps=25))
     return specs
 
 
